@@ -41,6 +41,8 @@ SHAPE_EXEMPT = {
     ("tracing_subscriber::filter::subscriber_filters::combinator::Not", FILTER, "max_level_hint"): "documented: negation has no hint",
     ("tracing_subscriber::filter::subscriber_filters::combinator::Not", FILTER, "event_enabled"): "documented constant",
     ("tracing_subscriber::subscribe::layered::Layered", COLLECT, "drop_span"): "calls try_close",
+    ("tracing_subscriber::field::debug::Alt", "tracing_core::field::Visit", "record_debug"): "its purpose: re-renders the value with {:#?} before handing it on",
+    ("tracing_subscriber::field::display::Messages", "tracing_core::field::Visit", "record_str"): "its purpose: the `message` field is handed on as Display text through record_debug",
 }
 
 
